@@ -59,7 +59,8 @@ COVERAGE_TARGETS = [f'rej:{k}:{r}:{e}' for k, e in (('plain', 'ValueError'), ('r
                     for r in ('set', 'update', 'ctxEnter')] + \
                    ['rej:gen:set:TypeError', 'rej:gen:setCls:TypeError', 'rej:gen:update:TypeError', 'rej:gen:ctxEnter:TypeError',
                     'update:ev:first:ValueError', 'update:ev:last:ValueError', 'update:ev:first:TypeError', 'update:ev:first:ok',
-                    'ctxEnter:ev:first:ok', 'srcSet:rejected-sync', 'shared:set:ref:ok', 'shared:set:plain:ValueError', 'shared:set:ref:ValueError',
+                    'ctxEnter:ev:first:ok', 'srcSet:rejected-sync', 'rej:locked:set:TypeError', 'rej:locked:update:TypeError', 'lock:ok', 'nsread-validators', 'falsy-sources', 'hooks',
+                    'shared:set:ref:ok', 'shared:set:plain:ValueError', 'shared:set:ref:ValueError',
                     'rej:plain:setCls:ValueError', 'rej:readonly:setCls:TypeError', 'rej:plain:later:update:ValueError',
                     'rej:ref:later:update:ValueError', 'set:plain:linked:ValueError', 'set:ref:linked:ValueError', 'set:ref:free:ValueError',
                     'set:plain:linked:TypeError', 'set:ref:linked:TypeError']
@@ -100,13 +101,15 @@ def directed():
         src = [list(r) for r in src0]
         pds = R.shared_params(R.STD) if (late and route in ('set', 'update', 'ctxEnter') and lk in ('par', 'rx')) else [dict(p) for p in R.STD]
         # the prior link sits on the parameter that will be attacked whenever that is possible
-        slot = {'plain': 0, 'ref': 0, 'nested': 2, 'const': 3, 'readonly': 0, 'gen': 0}[kind]
+        slot = {'plain': 0, 'ref': 0, 'nested': 2, 'const': 3, 'readonly': 0, 'gen': 0, 'locked': 5}[kind]
         if lk == 'nested':
             slot = 2
         elif slot == 2:
             ref2 = R.cont(R.par(1, 1), R.lit(3)) if ref is not None else None
             ref = ref2
         ctor, ops = [], []
+        if kind == 'locked':
+            ref = None          # p5 takes no references: the attacked parameter holds no value of its own
         if ref is not None:
             if late and slot != 3:
                 ops.append({'op': 'set', 't': 0, 'p': slot, 'rhs': ref})
@@ -119,9 +122,16 @@ def directed():
         rj = R.rejected_op(rng, targets, src, 2, 2, kind, route, t=0, prefer=slot)
         if rj is None:
             continue
+        if kind == 'locked':
+            # the parameter is made constant on the instance only; it may hold no value of its own (p5 is never
+            # assigned before), so what the setter reads as the old value is the class default
+            for q in ([rj['p']] if 'p' in rj else [k for k, _ in rj['kvs'][-1:]]):
+                ops.append({'op': 'lock', 't': 0, 'p': q})
         ops.append(rj)
         ops += R.probe_suffix(rng, src, 2, 2, rounds=2)
-        yield R.mk_case(PROP, src0, targets, ops, sub=(route == 'setCls' and late))
+        ops += R.cls_probe(rng, targets)
+        yield R.mk_case(PROP, src0, targets, ops, sub=(route == 'setCls' and late), nsread=(route == 'setCls'),
+                        falsy_src=(lk == 'fn' and not late))
     # a source update whose write into a linked parameter is rejected (the rejected assignment happens under
     # `_syncing`, inside `_sync_refs`), then the link is overridden / relinked and every source probed
     for (lk, ref), late, after in itertools.product(list(links.items())[1:4], (False, True), ('override', 'relink', 'update')):
